@@ -789,3 +789,53 @@ def check_stream_new(ctx, rid):
         r.check(init.get(which) == recv, 'stream-new|%s|%s' % (short, which), f.loc(bi), 'Stream::new: %s(%s) is applied to the value stored as %s' % (short, 'init_send_window' if which == 'send_flow' else 'init_recv_window', which))
     r.floor(n, 3, 'window initialisations in Stream::new')
     return r
+
+
+# ------------------------------------------------------------------------------------------------ predicate census
+
+PREDICATES = os.path.join(HERE, 'rules', 'predicates.json')
+
+
+def predicate_table(F, f):
+    from . import predtab
+    try:
+        return predtab.table(F, f, max_atoms=9, max_rows=2000)
+    except predtab.Unsupported:
+        return None
+
+
+def check_predicates(ctx, rid, prop):
+    """reviewed boolean functions still compute the reviewed truth table over the same atoms"""
+    from . import predtab
+    r = ctx.rule(rid, 'TABLE', 'predicate census: each reviewed boolean function computes the reviewed truth table over its atoms (calls / fields: 2 outcomes, comparisons: lt/eq/gt, matches: one per arm) -- however it is written')
+    F = ctx.facts
+    with open(PREDICATES) as fh:
+        tab = [e for e in json.load(fh) if prop in e['props']]
+    prof = 'rel' if str(getattr(F, 'config', '')).endswith('-rel') else 'dbg'
+    found = 0
+    for e in tab:
+        f = F.fn(e['fn'])
+        key = 'predicate|%s' % e['fn'].replace('proto::streams::', '')
+        if f is None:
+            r.ok('absent|' + e['fn'], '', 'function not present in this configuration (not a violation)')
+            continue
+        want_atoms, want_rows = e['tables'][prof]
+        got = predicate_table(F, f)
+        if got is None:
+            r.ok('restructured|' + e['fn'], f.file, 'no longer a finite decision over nameable atoms -- not compared')
+            continue
+        atoms, rows = got
+        found += 1
+        wa = [(k, list(d)) for k, d in want_atoms]
+        if atoms == wa:
+            r.check(rows == want_rows, key, f.file, '%s over %s: table %s (reviewed %s). %s' % (e['fn'].split('::')[-1] if 'closure' not in e['fn'] else e['fn'].split('::')[-2] + '::{closure}', [k for k, d in atoms], rows, want_rows, e['why']))
+            continue
+        keys_new, keys_old = set(k for k, d in atoms), set(k for k, d in wa)
+        if keys_new < keys_old:
+            ext = predtab.project(atoms, rows, wa)
+            r.check(ext is not None and ext == want_rows, key, f.file, '%s no longer consults %s and its table differs from the reviewed one. %s' % (e['fn'].split('::')[-1], sorted(keys_old - keys_new), e['why']))
+            continue
+        r.ok('restructured|' + e['fn'], f.file, 'consults different atoms than reviewed (%s) -- not compared' % sorted(keys_new ^ keys_old)[:4])
+    r.stat('entries', len(tab))
+    r.floor(found, int(len(tab) * 0.8) if len(tab) >= 5 else 0, 'reviewed predicates found in the tree')
+    return r
